@@ -312,4 +312,27 @@ theorem run_notp_eq (a : PExpr ρ) (q : Bool) (inp : List Char) :
     run (.notp a) q inp = (match run a false inp with | some _ => none | none => some (R.nil inp)) := by
   simp only [run]; rw [run_quiet a false inp]; cases run a false inp <;> rfl
 
+/-- sequence is associative: same input consumed, same pairs in the same order (this is what lets the
+grammar translator flatten redundant parentheses) -/
+theorem run_seq_reassoc (a b c : PExpr ρ) (q : Bool) (inp : List Char) :
+    run (.seq (.seq a b) c) q inp = run (.seq a (.seq b c)) q inp := by
+  simp only [run_seq]
+  cases run a q inp with
+  | none => rfl
+  | some r1 =>
+    simp only []
+    cases hb : run b q r1.rest with
+    | none => rfl
+    | some r2 =>
+      simp only [R.append]
+      cases run c q r2.rest with
+      | none => rfl
+      | some r3 => simp [R.append, List.append_assoc]
+
+/-- ordered choice is associative -/
+theorem run_alt_reassoc (a b c : PExpr ρ) (q : Bool) (inp : List Char) :
+    run (.alt (.alt a b) c) q inp = run (.alt a (.alt b c)) q inp := by
+  simp only [run_alt]
+  cases run a q inp <;> simp
+
 end OH.Model.Peg
